@@ -301,7 +301,9 @@ Definition expected : contracts := [
      Check "canvas_coords" [DAny; DInt 2] None]);
   ("polliwog.transform._viewing.view_to_orthographic_projection", []);
   ("polliwog.transform._viewing.viewport_transform", []);
-  ("polliwog.transform._viewing.world_to_canvas_orthographic_projection", []);
+  ("polliwog.transform._viewing.world_to_canvas_orthographic_projection", [
+     Check "position" [DInt 3] None;
+     Check "target" [DInt 3] None]);
   ("polliwog.transform._viewing.world_to_view", [
      Check "position" [DInt 3] None;
      Check "target" [DInt 3] None]);
